@@ -18,9 +18,13 @@ def walk_strings(d, out, ctx=None):
             walk_strings(x, out, "format-template" if is_fmt and i == 2 else None)
 
 
-def analyze(items, user_terms):
-    """-> dict(error=None|str, occurrences=[(term, context)], bad=guard, literals=[...])"""
+def analyze(items, user_terms, data_value=None):
+    """-> dict(error=None|str, occurrences=[(term, context)], bad=guard, bad_beyond=guard, ...)
+    data_value: {term id -> term}: the character the user MEANT at that rope position (identity for raw user
+    characters).  `bad` = some emitted character is read as syntax; `bad_beyond` = that happens although the
+    character the user meant is not itself a quote / backslash / tilde (i.e. beyond plain missing escaping)."""
     ids = {t.get_id() for t in user_terms}
+    data_value = data_value or {}
     try:
         data = read_all(items)
     except ReadError as e:
@@ -36,12 +40,14 @@ def analyze(items, user_terms):
     # user characters that the reader met outside string literals would have raised ReadError; characters that do
     # not appear at all were dropped by the generator
     missing = [t for t in user_terms if t.get_id() not in in_strings]
-    bad = False
+    bad, beyond = False, False
     for t, ctx, s in occ:
-        bad = b_or(bad, t == 34, t == 92)
-        if ctx == "format-template":
-            bad = b_or(bad, t == 126)
-    return dict(error=None, bad=bad, occurrences=occ, forms=len(data), missing=missing, data=data)
+        special = b_or(t == 34, t == 92, (t == 126) if ctx == "format-template" else False)
+        meant = data_value.get(t.get_id(), t)
+        meant_special = b_or(meant == 34, meant == 92, (meant == 126) if ctx == "format-template" else False)
+        bad = b_or(bad, special)
+        beyond = b_or(beyond, b_and(special, b_not(meant_special)))
+    return dict(error=None, bad=bad, bad_beyond=beyond, occurrences=occ, forms=len(data), missing=missing, data=data)
 
 
 def structure_of(text):
